@@ -527,6 +527,94 @@ theorem delays_honoured_return (cfg : Cfg) (cbs : List Nat) (evs : List TEv) (ha
       simp only [Nat.add_sub_cancel] at hg7
       rw [hp't, htb]; omega
 
+/-- Delays honoured — the clause in the WINDOW form of the monitor (`delaysHonouredB`), for EVERY accepted run (any
+configuration): this IS `delays_honoured_statement`.  From `delays_honoured_run` (consecutive sends) and
+`delays_honoured_return` (the return after the last send). -/
+theorem delays_honoured : delays_honoured_statement := by
+  intro cfg cbs evs hacc
+  unfold DelaysHonoured delaysHonouredB
+  simp only [allBelow, List.all_eq_true, List.mem_range]
+  intro a _
+  cases hev : evAt evs a with
+  | none => rfl
+  | some ev =>
+    cases ev <;> try rfl
+    rename_i c kind reqs
+    cases kind <;> try rfl
+    obtain ⟨hnr, hble, hbret⟩ := spanEnd_spec evs c a
+    simp only [Bool.and_eq_true, List.all_eq_true, List.mem_range, decide_eq_true_eq, Bool.or_eq_true,
+      Bool.not_eq_eq_eq_not, Bool.not_true, beq_iff_eq]
+    constructor
+    · intro m hm
+      have hm0 : m < (sendsIn evs c a (spanEnd evs c a)).length := by omega
+      have hm1 : m + 1 < (sendsIn evs c a (spanEnd evs c a)).length := by omega
+      have hp := List.getElem?_eq_getElem hm0
+      have hq := List.getElem?_eq_getElem hm1
+      obtain ⟨hap, hpb, hsp, hcnt⟩ := sendsIn_nth evs c a _ m _ hp
+      obtain ⟨_, hqb, hsq, _⟩ := sendsIn_nth evs c a _ (m + 1) _ hq
+      obtain ⟨hpq, hno⟩ := sendsIn_consecutive evs c a _ m _ _ hp hq
+      rw [getD_of_getElem? hp, getD_of_getElem? hq]
+      have := delays_honoured_run cfg cbs evs hacc c a _ _ reqs hev hap hpq
+        (fun x h1 h2 => hnr x h1 (by omega)) hsp hsq hno
+      rw [hcnt, List.length_take, Nat.min_eq_left (by omega)] at this
+      exact this
+    · by_cases hg : ((sendsIn evs c a (spanEnd evs c a)).length = reqs.length ∧
+          0 < (sendsIn evs c a (spanEnd evs c a)).length) ∧ isOkRet (evAt evs (spanEnd evs c a)) = true
+      · right
+        obtain ⟨⟨_, hpos⟩, hok⟩ := hg
+        have hl : (sendsIn evs c a (spanEnd evs c a)).length - 1 < (sendsIn evs c a (spanEnd evs c a)).length := by omega
+        have hp := List.getElem?_eq_getElem hl
+        obtain ⟨hap, hpb, hsp, hcnt⟩ := sendsIn_nth evs c a _ _ _ hp
+        obtain ⟨x, rs, hbev⟩ := isOkRet_some hok
+        have hblt : spanEnd evs c a < evs.length := evAt_lt_of_some hbev
+        have hxc : x = c := by
+          have := (hbret hblt).2
+          rw [hbev] at this
+          simpa [isRetOf] using this
+        subst hxc
+        rw [getD_of_getElem? hp]
+        have hno : ∀ y, (sendsIn evs x a (spanEnd evs x a))[(sendsIn evs x a (spanEnd evs x a)).length - 1] < y →
+            y < spanEnd evs x a → sendAt evs y ≠ some x := by
+          intro y h1 h2 hs
+          have hy : y ∈ sendsIn evs x a (spanEnd evs x a) := mem_sendsIn.2 ⟨h2, by omega, hs⟩
+          obtain ⟨n, hn, hyn⟩ := List.getElem_of_mem hy
+          -- y is the n-th send, n ≤ last: then y ≤ the last send
+          rcases Nat.lt_or_ge n ((sendsIn evs x a (spanEnd evs x a)).length - 1) with hlt | hge
+          · have hny := List.getElem?_eq_getElem hn
+            rw [hyn] at hny
+            obtain ⟨_, _, _, hcy⟩ := sendsIn_nth evs x a _ n y hny
+            have hmem : (sendsIn evs x a (spanEnd evs x a))[(sendsIn evs x a (spanEnd evs x a)).length - 1] ∈
+                sendsIn evs x a y := by
+              apply mem_sendsIn.2
+              exact ⟨h1, hap, hsp⟩
+            rw [hcy] at hmem
+            have hlen := congrArg List.length hcnt
+            rw [List.length_take, Nat.min_eq_left (by omega)] at hlen
+            -- the last send lies in the first n sends: it then precedes itself
+            obtain ⟨k, hk, hkk⟩ := List.getElem_of_mem hmem
+            rw [List.length_take, Nat.min_eq_left (by omega)] at hk
+            rw [List.getElem_take] at hkk
+            have hkq := List.getElem?_eq_getElem (show k < (sendsIn evs x a (spanEnd evs x a)).length by omega)
+            rw [hkk] at hkq
+            obtain ⟨_, _, _, hck⟩ := sendsIn_nth evs x a _ k _ hkq
+            have := congrArg List.length hck
+            rw [List.length_take, Nat.min_eq_left (by omega), hlen] at this
+            omega
+          · have : n = (sendsIn evs x a (spanEnd evs x a)).length - 1 := by omega
+            subst this
+            omega
+        have := delays_honoured_return cfg cbs evs hacc x a _ (spanEnd evs x a) reqs rs hev hap hpb hnr hsp hbev hno
+        rw [hcnt, List.length_take, Nat.min_eq_left (by omega)] at this
+        exact this
+      · left
+        simp only [not_and, Bool.not_eq_true] at hg
+        simp only [Bool.and_eq_false_iff, beq_eq_false_iff_ne, ne_eq, decide_eq_false_iff_not]
+        by_cases h2 : (sendsIn evs c a (spanEnd evs c a)).length = reqs.length
+        · by_cases h3 : 0 < (sendsIn evs c a (spanEnd evs c a)).length
+          · right; exact hg ⟨h2, h3⟩
+          · left; right; exact h3
+        · left; left; exact h2
+
 /-- Fails within the time-out — for EVERY accepted run: a `recv` of caller `c` that ends empty (position u) belongs to
 the read loop started by `c`'s own last send (position p), and it ends no later than one `recv` period (`gran`) after
 the end of the time-out — or after the last byte-carrying `recv` of the loop, if the device kept talking — up to the
